@@ -41,7 +41,7 @@ CPut(k, v) == Put(k, v) /\ since' = [since EXCEPT ![k] = @ \cup {v}] /\ UNCHANGE
 CRemove(k) == Remove(k) /\ since' = [since EXCEPT ![k] = @ \cup {-1}] /\ UNCHANGED dur /\ ok' = AllOK
 CFlush == Flush /\ dur' = kv /\ since' = [k \in Keys |-> {}] /\ ok' = AllOK
 \* a collector's cycle commits nothing on its own account (relocated copies stay in the pools)
-CPriGC(lu) == PriGC(lu) /\ UNCHANGED <<dur, since>> /\ ok' = AllOK
+CPriGC(lu, d) == PriGCd(lu, d) /\ UNCHANGED <<dur, since>> /\ ok' = AllOK
 CIdxGC(sf) == IdxGC(sf) /\ UNCHANGED <<dur, since>> /\ ok' = AllOK
 
 \* ---- what an open computes from the files alone (pure functions of the files: no pools, no live table)
@@ -122,7 +122,7 @@ Stages(order) ==      \* the crash points of one commit in the configured order
 CrashAny == \E order \in Perms(Dirty) : \E st \in Stages(order) : Crash(st[1], order, st[2], st[3])
 
 CNext == \/ (\E k \in Keys, v \in Vals : CPut(k, v)) \/ (\E k \in Keys : CRemove(k)) \/ CFlush
-         \/ (WithGC /\ ((\E lu \in LowUses : CPriGC(lu)) \/ \E sf \in BOOLEAN : CIdxGC(sf)))
+         \/ (WithGC /\ ((\E lu \in LowUses, d \in Deadlines : CPriGC(lu, d)) \/ \E sf \in BOOLEAN : CIdxGC(sf)))
          \/ ("reopen" \in Faults /\ \E how \in {"snapshot", "rescan"} : Reopen(how))
          \/ ("crash" \in Faults /\ CrashAny)
 CSpec == CInit /\ [][CNext]_cvars
